@@ -142,14 +142,18 @@ def _diff(want, got):
     return f"values differ (max abs diff {max(float(np.max(np.abs(np.asarray(w).astype(np.float64) - np.asarray(g).astype(np.float64)))) if np.asarray(w).size else 0.0 for w, g in zip(want, got)):.6g})"
 
 
-STATS = {"ort_compared": 0, "ref_sole_witness": 0, "ref_cross_checked": 0, "ref_disagrees_with_ort": 0}
+# documented restrictions of the onnxruntime CPU kernels on otherwise valid models; only then is onnx.reference the judge
+ORT_LIMITATIONS = ("Dilation not supported for AutoPadType",)
+
+STATS = {"hosts_not_runnable": 0, "ort_compared": 0, "ref_sole_witness": 0, "ref_cross_checked": 0, "ref_disagrees_with_ort": 0}
 
 
 def oracle(host, new, feeds_list, exact=True, use_ref=True, ref_feeds=1):
     """The property itself on the real code.  Returns (reasons, n_compared).
     reasons is empty when the rewritten model is checker-valid and reproduces the host's outputs for every feed.
     onnxruntime (ORT_DISABLE_ALL, single-threaded) decides whenever it can run the host.  onnx.reference decides when
-    onnxruntime cannot run the host (e.g. SAME_* auto_pad with dilations).  Where both run, the reference evaluator is
+    onnxruntime cannot run the host because of a documented kernel restriction (ORT_LIMITATIONS: SAME_* auto_pad with
+    dilations); a host that onnxruntime rejects for another reason is counted in STATS['hosts_not_runnable'] and skipped.  Where both run, the reference evaluator is
     a cross-check only: it mis-handles some attribute combinations (auto_pad=VALID, ConvTranspose group+bias, ConvInteger
     pads were all observed), so a verdict of the reference evaluator that onnxruntime does not share is counted in
     STATS['ref_disagrees_with_ort'] and not reported."""
@@ -189,6 +193,9 @@ def oracle(host, new, feeds_list, exact=True, use_ref=True, ref_feeds=1):
         elif not base.same_outputs(wr, gr, exact=exact):
             ref_bad = "ref: " + _diff(wr, gr)
         if e0 is not None:
+            if not any(t in str(e0) for t in ORT_LIMITATIONS):
+                STATS["hosts_not_runnable"] += 1      # onnxruntime rejects the host itself: says nothing about the rule
+                continue
             n += 1
             STATS["ref_sole_witness"] += 1
             if ref_bad:
@@ -244,6 +251,21 @@ def two_index_lists(ctx, requires, defs, name_a="dis_impl", name_b="dis_fixed"):
     if not ok or len(vals) < 2:
         return False, [], [], raw
     return True, common.parse_nat_list(vals[0]), common.parse_nat_list(vals[1]), raw
+
+
+def eval_cases(ctx, requires, case_type, cases, dis_fun, prelude="", chunk=300):
+    """Shard `cases` (Coq literals of type `case_type`), evaluate `dis_fun false` and `dis_fun true` on every shard and
+    return (ok, indices disagreeing with the as-read model, indices disagreeing with the repaired model, raw)."""
+    di, df = [], []
+    for off in range(0, max(len(cases), 1), chunk):
+        part = cases[off:off + chunk]
+        ok, a, b, raw = two_index_lists(ctx, requires, prelude + f"Definition cases : list {case_type} := {clist(part)}.\n"
+                                        f"Definition dis_impl := {dis_fun} false cases.\nDefinition dis_fixed := {dis_fun} true cases.")
+        if not ok:
+            return False, [], [], raw
+        di += [off + x for x in a]
+        df += [off + x for x in b]
+    return True, di, df, ""
 
 
 def settle(ctx, fam, stream, meta, dis_impl, dis_fixed, defect_of):
